@@ -135,3 +135,6 @@ def nontrivial(line):
 
 def classify(line, what):
     return "c14-" + line.split()[2].lower()
+
+
+norm_model = norm_impl
